@@ -96,7 +96,11 @@ func runPipe(ps *PipeScen, sched kern.SchedSpec, fastReader bool, keep bool) (*p
 				if pos+n > len(data) {
 					n = len(data) - pos
 				}
-				_, e = w.Write(data[pos : pos+n])
+				cb := append([]byte{}, data[pos:pos+n]...)
+				_, e = w.Write(cb)
+				for i := range cb {
+					cb[i] = 0xEE // the caller reuses its buffer
+				}
 				res.model = append(res.model, data[pos:pos+n]...)
 				pos += n
 			case "f":
